@@ -264,20 +264,24 @@ func (k Keeper) deductUnbondingDelegation(ctx context.Context, delAddr sdk.AccAd
 		return math.Int{}, types.ErrNoUnbondingDelegationEntries
 	}
 	removeAmt := math.ZeroInt()
+	// entries are consumed oldest first; the ones that remain are collected in a new slice
+	// (removing from ubd.Entries while ranging over it shifts the entries still to be visited)
+	remaining := make([]stakingtypes.UnbondingDelegationEntry, 0, len(ubd.Entries))
 	for i, u := range ubd.Entries {
 		if u.Balance.LT(tokens) {
 			tokens = tokens.Sub(u.Balance)
 			removeAmt = removeAmt.Add(u.Balance)
-			ubd.RemoveEntry(int64(i))
 		} else {
 			u.Balance = u.Balance.Sub(tokens)
 			u.InitialBalance = u.InitialBalance.Sub(tokens)
-			ubd.Entries[i] = u
+			remaining = append(remaining, u)
+			remaining = append(remaining, ubd.Entries[i+1:]...)
 			removeAmt = removeAmt.Add(tokens)
 			tokens = math.ZeroInt()
 			break
 		}
 	}
+	ubd.Entries = remaining
 
 	if len(ubd.Entries) == 0 {
 		err = k.stakingKeeper.RemoveUnbondingDelegation(ctx, ubd)
